@@ -106,7 +106,7 @@ class PreprocessModel:
         def actual_arguments(args: List[Any], kwargs: Any = None) -> Any:
             d = dict(zip(("positionals", "star_args", "keywords", "star_kwargs"), args))
             d.update(kwargs or {})
-            for k, dv in (("kwargs_required", False), ("ellipsis", False), ("pos_or_keyword_params", frozenset()), ("param_spec", None)):
+            for k, dv in (("kwargs_required", False), ("ellipsis", False), ("pos_or_keyword_params", frozenset()), ("param_spec", None), ("min_star_args", 0)):
                 d.setdefault(k, dv)
             return Obj("ActualArguments", **d)
 
